@@ -80,6 +80,8 @@ def cases(tier, rng):
     thorough = tier == "thorough"
     for c in directed.rewritten_file_cases():
         yield "directed-rewritten-file", c
+    for c in directed.default_limits_cases():
+        yield "directed-default-limits", c
     for c in exprprop.special_cases(rng):
         c = dict(c, variants=[{}, {}])
         yield "special", c
